@@ -494,16 +494,29 @@ def idxOkTList (st : StructTable) (nf : Nat) (ρ : Store) : ForkAssign → List 
 end
 
 mutual
-/-- the map calls of run-time size with the mapped calls around them (outermost first) -/
-def subROcc (dims : List String) : STree → List (String × List String)
+/-- the map calls of run-time size: id ↦ (path, the mapped calls around it, outermost first) -/
+def subROcc (dims : List String) : STree → List (String × List String × List String)
   | .node _ => []
   | .sub c _ _ _ ch => subROccList (dims ++ [c]) ch
   | .guard _ ch => subROccList dims ch
-  | .subR c _ _ _ _ ch => (c, dims) :: subROccList (dims ++ [c]) ch
-def subROccList (dims : List String) : List STree → List (String × List String)
+  | .subR c _ path _ _ ch => (c, path, dims) :: subROccList (dims ++ [c]) ch
+def subROccList (dims : List String) : List STree → List (String × List String × List String)
   | [] => []
   | t :: ts => subROcc dims t ++ subROccList dims ts
 end
+
+/-- the index sets a run recorded: per instance of a map call (its path and the forks of the
+mapped calls around it) the indices / keys it forked over (`ForkId`s of the nodes below it) -/
+abbrev IdxRec := InstKey → List Idx
+
+/-- the store of a run: the recorded outs and the recorded index sets -/
+def storeOfRun (nm : List String → String) (nodes : List SNode)
+    (occ : List (String × List String × List String)) (O : Oracle) (I : IdxRec) : Store :=
+  { outs := (storeOfNodes nm nodes O).outs
+    idx := fun c f =>
+      match occ.lookup c with
+      | some (path, dims) => I ⟨path, dims.map fun d => (d, (f.lookup d).getD .none)⟩
+      | none => [] }
 
 /-- a stage instance of den as the code delivers it: "no value" (`dnull`) rendered as JSON null -/
 def eraseInst (i : Inst) : Inst := { i with args := J.erase i.args }
